@@ -5,7 +5,7 @@ from . import inputs, hist, synth
 PROP = 'C14'
 LEVEL = 'exploration'
 WALL_CAP = {'quick': 300, 'thorough': 3000}
-RUNS = {'quick': 1500, 'thorough': 30000}
+RUNS = {'quick': 5000, 'thorough': 50000}
 RULE = ('one run = source model S (sample or API-built, every geometry kind, skinned or not, model-space shaders) and destination D in {S itself, fresh Create(version), '
         'another loaded/built model of the same version}; steps: CloneShape (repeated), restart of D (raw/default save, forget, load), destruction of S followed by use of D, '
         'query battery on D. Oracle per clone: geometry, weights, bone list and texture paths equal the source\'s (normals/tangents exempt for model-space shaders in SK/SSE); '
